@@ -48,6 +48,15 @@ let handle = function
     (* snoopy_outputregistry_dispatch with CFG->output = n; last field: did the output receive the message and CFG->output_arg *)
     let o = model_dispatch c (guards g) (coq_of_str (unhex n)) in
     "ok\t" ^ show_outcome o ^ "\t" ^ (match o with Called _ -> "1" | _ -> "-")
+  | ["dispatchs"; "out"; n; g] ->
+    (* as dispatch, CFG->output kept at the same address over the whole sequence of cases (the setting is re-read every time) *)
+    let o = model_dispatch c (guards g) (coq_of_str (unhex n)) in
+    "ok\t" ^ show_outcome o ^ "\t" ^ (match o with Called _ -> "1" | _ -> "-")
+  | ["chain"; k; elems; g] ->
+    (* snoopy_filtering_check_chain over "e1:a;e2;e3:a;..." with every filter answering PASS: implementations run, in order *)
+    "ok\t" ^ plain_list (List.map str_of_coq (model_chain c (kind_of k) (guards g) (List.map coq_of_str (parse_plain_list elems))))
+  | ["chainspec"; k; elems; g; obs] ->
+    if spec_chain_ok c (kind_of k) (guards g) (List.map coq_of_str (parse_plain_list elems)) (List.map coq_of_str (parse_plain_list obs)) then "ok" else "bad"
   | ["byid"; k; i; g] ->
     let k = kind_of k and g = guards g and i = z_of_int (int_of_string i) in
     let nm = (match model_get_name c k g i with Some (Some s) -> (let s = str_of_coq s in if s = "" then "-" else s) | Some None -> "~" | None -> "oob") in
